@@ -46,7 +46,7 @@ pub fn tokens_to_line(tokens: &Tokens) -> String {
 /// vec!["man awk | grep version"]
 /// Like `str::trim()`, but a trailing whitespace character that is escaped
 /// with a backslash (e.g. `ls foo\ `) belongs to the command and is kept.
-fn trim_cmd(token: &str) -> &str {
+pub fn trim_cmd(token: &str) -> &str {
     let t = token.trim_start();
     let trimmed = t.trim_end();
     if trimmed.len() < t.len() {
